@@ -123,10 +123,29 @@ def setup():
 
 def run_cases(ctx, n, seed):
     gobin = L.go_build("c15")
-    rc, out, err, dt = L.sh([gobin, "-seed", str(seed), "-n", str(n)], timeout=1500)
+    rc, out, err, dt = L.sh([gobin, "-seed", str(seed), "-n", str(n)], timeout=6000)
     if rc != 0:
         raise L.Fail("correspondence", "harness cmd/c15 crashed (panic in consumergroup.go or in the driver)", (out[-1500:] + err[-2500:]))
-    return out
+    return out, err
+
+
+def hang_dumps(err):
+    """Goroutine dumps the harness wrote to stderr at each watchdog expiry: [(what, signature, stacks)]."""
+    dumps = []
+    for blk in err.split("=== HANG ")[1:]:
+        body = blk.split("=== END HANG")[0]
+        lines = body.split("\n")
+        sig = lines[1][len("signature: "):] if len(lines) > 1 and lines[1].startswith("signature: ") else ""
+        # keep the goroutines that are inside the library or the harness functions, drop idle runtime ones
+        gs = [g for g in "\n".join(lines[2:]).split("\n\n") if "kafka-go" in g or "main." in g]
+        dumps.append((lines[0].strip(), sig, "\n\n".join(gs)[:6000]))
+    return dumps
+
+
+def split_seed(c):
+    fs = [f for f in c["feats"].split(",") if f]
+    c["seed"] = next((f[5:] for f in fs if f.startswith("seed=")), None)
+    c["feats"] = ",".join(f for f in fs if not f.startswith("seed="))
 
 
 def correspondence(ctx):
@@ -137,10 +156,13 @@ def correspondence(ctx):
     if os.path.isdir(cdir):
         for f in sorted(os.listdir(cdir)):
             texts.append(open(os.path.join(cdir, f)).read())
-    texts.append(run_cases(ctx, n, ctx.seed))
+    out, err = run_cases(ctx, n, ctx.seed)
+    texts.append(out)
+    dumps = hang_dumps(err)
     cases = []
     for t in texts:
         for c in L.parse_cases(t):
+            split_seed(c)
             c["id"] = str(len(cases) + 1)
             c["line"] = c["id"] + " " + c["op"] + " " + c["args"]
             cases.append(c)
@@ -151,7 +173,7 @@ def correspondence(ctx):
         f = classify(c)
         f["detail"] = json.dumps(dict(case=c["line"][:2000], go=c["go"][:800], model=str(c.get("model"))[:800], feats=c["feats"]))
         if f.get("input") is not None:
-            f["input"] = dict(case=c["line"], go=c["go"], model=c.get("model"), feats=c["feats"])
+            f["input"] = dict(case=c["line"], go=c["go"], model=c.get("model"), feats=c["feats"], case_seed=c.get("seed"))
         failures.append(f)
     # the property predicates on the implementation's own output, whether or not the model agrees
     badids = {c["id"] for c in bad}
@@ -163,11 +185,11 @@ def correspondence(ctx):
                                                       ("watchdog: " + c["go"] if c["go"].startswith("HANG") else None))
         if v:
             failures.append(dict(layer="property", what=f"{c['op']}: {v}", detail=c["line"][:1500] + " -> " + c["go"][:500],
-                                 input=dict(case=c["line"], go=c["go"], feats=c["feats"])))
+                                 input=dict(case=c["line"], go=c["go"], feats=c["feats"], case_seed=c.get("seed"))))
         feats = c["feats"].split(",")
         if "dropped-id-without-leave" in feats:
             failures.append(dict(layer="property", what="soak: a JoinGroup request arrived without the member id the coordinator had given, and no LeaveGroup was attempted for that id",
-                                 detail=c["line"][:1500], input=dict(case=c["line"], go=c["go"], feats=c["feats"])))
+                                 detail=c["line"][:1500], input=dict(case=c["line"], go=c["go"], feats=c["feats"], case_seed=c.get("seed"))))
         if "leavefull=0" in c["go"] or "close-without-leave" in feats or (c["op"] == "wire" and "leave=0" in c["go"]):
             noleave.append(c)
     # leave on close, judged on what the coordinator saw (one failure, smallest witness first)
@@ -180,6 +202,20 @@ def correspondence(ctx):
                  + (" (after a RebalanceInProgress result: regression of F5)" if "offer-abort-rb" in w["feats"] else ""),
             detail=json.dumps(dict(occurrences=len(noleave), witness=w["line"][:800], go=w["go"][:300], feats=w["feats"])),
             input=dict(case=w["line"], go=w["go"], feats=w["feats"])))
+    # a scenario that hit the watchdog was re-run alone by the harness with the same seed: hanging
+    # twice is a HANG result (handled above as a violation); hanging once only is a note
+    notes = []
+    once = [c for c in cases if "hang-once-under-load" in c["feats"].split(",")]
+    if once:
+        notes.append(f"{len(once)} scenario(s) hit the {'30 s'} watchdog once and completed normally when re-run alone with the same seed "
+                     f"(machine load, not a verdict): " + "; ".join(f"{c['op']} seed={c['seed']}" for c in once[:5])
+                     + (" | blocked goroutines at expiry: " + " || ".join(d[1][:300] for d in dumps[:3]) if dumps else ""))
+    for f in failures:
+        if "HANG" in str(f.get("what", "")) + str(f.get("detail", ""))[:3000] and dumps:
+            f["detail"] = str(f.get("detail", "")) + "\n--- goroutines at watchdog expiry (first and repeat run) ---\n" + \
+                "\n=====\n".join(f"{d[0]}\nsignature: {d[1]}\n{d[2]}" for d in dumps[:4])
+    for c in cases:
+        c["feats"] = ",".join(f for f in c["feats"].split(",") if f not in ("hang-once-under-load",))
     ev, dn, hist = L.coverage_counts(cases, trivial_feats=("", "acc", "acc,close-nowait", "close-nowait", "late,close-nowait"))
     byop = {}
     for c in cases:
@@ -193,7 +229,8 @@ def correspondence(ctx):
                      "journal, Next results, Start accounting and final Generation fields compared; soak = free-running consumers, timeline judged by extracted monitors; e2e-joinerr = generation ends, re-join lost, LeaveGroup for the kept id must follow (regression); e2e-f5 + wire = the former F5 scenario (join, SyncGroup -> RebalanceInProgress, no Next, Close) as regression on the real code, interface seam and net.Pipe wire level; "
                      "a case is non-trivial when its feature set is not just {accounted start, close without waiting}; distinct by hash of op+args",
                 samples=[c["line"][:300] + " | " + c["go"][:160] for c in cases[:3] + cases[mid:mid + 3] + cases[-2:]],
-                extra=dict(cases_by_op=byop, close_after_rebalance_in_progress_offer=sum(1 for c in cases if "offer-abort-rb" in c["feats"].split(","))),
+                notes=notes,
+                extra=dict(cases_by_op=byop, watchdog_once_only=len(once), close_after_rebalance_in_progress_offer=sum(1 for c in cases if "offer-abort-rb" in c["feats"].split(","))),
                 failures=failures)
 
 
@@ -226,6 +263,21 @@ def replay(ctx, payload):
     model = L.ocaml_build("c15")
     print("model now:", L.run_model(model, inp["case"] + "\n"))
     op = inp["case"].split(" ")[1]
+    if op in ("gen", "e2e", "soak") and inp.get("case_seed"):
+        # re-run the very scenario on the real code, several times (each run retries a watchdog expiry once itself)
+        gobin = L.go_build("c15")
+        rc, out, err, _ = L.sh([gobin, "-only", op, "-caseseed", inp["case_seed"], "-reps", "10"], timeout=1200)
+        cs = L.parse_cases(out)
+        res = L.run_model(model, "\n".join(f"{i+1} {c['op']} {c['args']}" for i, c in enumerate(cs)) + "\n")
+        badn = 0
+        for i, c in enumerate(cs):
+            ok = res.get(str(i + 1)) == c["go"]
+            badn += 0 if ok else 1
+            print(f"re-run {i+1}: go={c['go'][:160]} | model={str(res.get(str(i+1)))[:160]} | {'agree' if ok else 'DIFFER'}")
+        for d in hang_dumps(err)[:2]:
+            print("watchdog expiry:", d[0], "\nsignature:", d[1], "\n", d[2][:3000])
+        print(f"{badn} of {len(cs)} re-runs of seed {inp['case_seed']} fail")
+        return 1 if badn else 0
     if op in ("e2e-f5", "wire") or "offer-abort-rb" in inp.get("feats", ""):
         gobin = L.go_build("c15")
         still = False
